@@ -56,8 +56,11 @@ def harnesses_for(unit, tier):
     spec = config.UNITS[unit]
     hs = []
     for h in spec['harnesses']:
-        if tier == 'quick' and h.get('tier', 'quick') != 'quick':
+        ht = h.get('tier', 'quick')
+        if tier == 'quick' and ht != 'quick':
             continue
+        if tier == 'thorough' and ht == 'extended':
+            continue   # listed, never run by a registered command (too slow here); reported as not executed
         hs.append(h)
     return hs
 
